@@ -165,6 +165,25 @@ impl Scenario for C18 {
         args.insert(1, rng.pick(&["0", "1", "42", "1024", "99999999"]).to_string());
         if mode == "unknown" {
             args[2] = unknown_word(rng);
+            // a valid keyword of the row with something attached: still not a keyword
+            let kws: &[&str] = match ty {
+                "Priority" => &["required", "important", "standard", "optional", "extra"],
+                "MultiArch" => &["same", "foreign", "no", "allowed"],
+                "Urgency" => &["low", "medium", "high", "emergency", "critical"],
+                "VersionConstraint" => &["<<", "<=", "=", ">=", ">>"],
+                "RepositoryType" => &["deb", "deb-src"],
+                "YesNoForce" => &["yes", "no", "force"],
+                "OriginCategory" => &["backport", "vendor", "upstream", "other"],
+                _ => &[],
+            };
+            if !kws.is_empty() && rng.chance(1, 2) {
+                let kw = rng.s(kws).to_string();
+                let deco = rng.s(&[" (HIGH for users)", " (x)", " (", "(x)", " x", " ;", ";", ",", ", x", "=1", "/x", ":", " #c", "\nx", " -", "!", "?", "'", "\""]);
+                args[2] = if rng.chance(1, 8) { format!("{}{}", deco.trim_start(), kw) } else { format!("{kw}{deco}") };
+                if args[2] == kw || kws.contains(&args[2].as_str()) {
+                    args[2] = format!("{kw}~");
+                }
+            }
         }
         let odd = if rng.chance(1, 6) { Some(rng.pick(&["a=b", "=", "x=", "-", "commit:1", "é", "a,b", "[x]", "<y>", "a:b", "!", "1:2-3", "%20", "#", "=="]).to_string()) } else { None };
         Case { ty: ty.to_string(), mode: mode.to_string(), args, epochs: [rng.next_u64(), rng.next_u64(), rng.next_u64()], odd }
@@ -465,7 +484,16 @@ impl Scenario for C18 {
             "Signature" => {
                 use apt_sources::signature::Signature as S;
                 let lead = ["", "", "\n", "\n\n", " \n"][(sel / 2) % 5];
-                let val = if sel % 2 == 0 { S::KeyPath(format!("/usr/share/keyrings/{}.gpg", a[2]).into()) } else { S::KeyBlock(format!("{lead}-----BEGIN PGP PUBLIC KEY BLOCK-----\n.\n{}\n-----END PGP PUBLIC KEY BLOCK-----", a[2])) };
+                let val = if sel % 2 == 0 {
+                    S::KeyPath(format!("/usr/share/keyrings/{}.gpg", a[2]).into())
+                } else {
+                    match (sel / 10) % 6 {
+                        // degenerate but representable blocks: one line, nothing at all
+                        0 => S::KeyBlock(a[2].clone()),
+                        1 => S::KeyBlock(String::new()),
+                        _ => S::KeyBlock(format!("{lead}-----BEGIN PGP PUBLIC KEY BLOCK-----\n.\n{}\n-----END PGP PUBLIC KEY BLOCK-----", a[2])),
+                    }
+                };
                 let pre = format!("{mode}+{}", if sel % 2 == 0 { "key-path" } else { "key-block" });
                 match mode {
                     "canonical" => canonical::<S>(&c.ty, &val.to_string(), e, p!(S), q!(S), &pre),
